@@ -241,7 +241,7 @@ QUIT_SHAPES = {
     'bye': ([b'221 bye'], None), 'multi': ([b'221-bye', b'221-see you', b'221 soon'], None), 'multi-open': ([b'221-bye'], None),
     'none': ([], None), 'junk': ([b'x'], None), 'empty': ([b''], None), 'wrong': ([b'500 what'], None), 'long': ([LONG], None),
     'long-bye': ([LONG, b'221 bye'], None), 'open': ([], OPEN), 'multi-then-open': ([b'221-bye'], OPEN), 'half': ([], b'221 by'),
-    'cr': ([], b'221 bye\r'), 'barelf': ([], b'221 bye\n221 x\r\n'), 'open-cr': ([], b'z' * 1001 + b'\r'), 'two': ([b'221 bye', b'221 again'], None),
+    'cr': ([], b'221 bye\r'), 'barelf': ([], b'221 bye\n221 x\r\n'), 'open-cr': ([], b'z' * 1000 + b'\r'), 'open-cr-more': ([], b'z' * 1000 + b'\rzz'), 'two': ([b'221 bye', b'221 again'], None),
 }
 
 def segments(rng, lines, unterminated=None):
